@@ -2,6 +2,7 @@ CONSTANTS
   Mode = "exhaustive"
   ExLenRd = 4
   ExLenWr = 5
+  ExLenRf = 4
   ExSizes = {1, 4096, 4097}
   ExEnvSel = "thorough"
   SimLen = 0
